@@ -83,6 +83,16 @@ def _case(i):
             fkind, data = 'empty', b''
         elif k < 0.14:
             fkind, data = 'noise_only', ''.join(rng.choice('abc 가나다.?!♥\n어엉') for _ in range(rng.randint(1, 60))).encode('utf-8')
+        elif k < 0.17:
+            # thousands of commands: listing indices, line numbers and columns with many digits
+            ncmd = rng.choice([9, 10, 11, 99, 100, 101, 1200, 5000])
+            sepc = rng.choice(['\n', ' ', '\n', '   '])
+            fkind, data = 'many_commands', (sepc.join(rng.choice(['형', '형.', '혀엉', '형..']) for _ in range(ncmd)) + rng.choice(['', '\n', ' 항.'])).encode('utf-8')
+        elif k < 0.185:
+            # commands whose locations differ wildly in width (line 1 col 0 vs line 10^5.. col 10^4..)
+            nl = rng.choice([9, 99, 999, 99999, 300000])
+            nc = rng.choice([0, 9, 99, 12345, 200000])
+            fkind, data = 'far_locations', ('형.' + '\n' * nl + ' ' * nc + '형..' + rng.choice(['', '\n항.', ' 항.'])).encode('utf-8')
         elif k < 0.2:
             nops = rng.choice([100, 1000, 4096])
             fkind, data = 'deep_area', ('형' + ''.join(rng.choice('?!') + rng.choice(['', '♥', '♡']) for _ in range(nops)) + ' 항.').encode('utf-8')
@@ -134,7 +144,7 @@ def _case(i):
         if loadable:
             prog = refparse.commands_only(refparse.parse(text))
             stext, bad_follows = split_valid_prefix(sdata)
-            m, ro, re_, rend = P.admit(prog, stext, Limits(steps=3000))
+            m, ro, re_, rend = P.admit(prog, stext, Limits(steps=12000))
             if not rend.startswith('notadmitted'):
                 admitted = True
                 ref_err = re_
